@@ -899,6 +899,8 @@ def gen_floorset(rng) -> dict:
     b2b = [[float(rng.randrange(nb)), float(rng.randrange(nb)), rng.choice(wchoice)] for _ in range(rng.randint(0, 6))]
     b2b = [e for e in b2b if e[0] != e[1]]
     p2b = [[float(rng.randrange(len(pins))), float(rng.randrange(nb)), rng.choice(wchoice)] for _ in range(rng.randint(0, 6))]
+    if rng.random() < 0.04:      # an instance without pins: the converter raises ValueError (max() of an empty sequence)
+        pins, p2b = [], []
     return {"producer": "floorset", "polys": polys, "areas": areas, "cons": cons, "pins": pins, "b2b": b2b, "p2b": p2b,
             "density": rng.choice([None, None, 0.25, 0.8, 1.0]), "terminals": rng.random() < 0.5}
 
@@ -992,6 +994,22 @@ def run_floorset(ctx: Ctx, inp: dict, batch: Batch) -> None:
             fp, data = floorset_instance(inp)
     except AssertionError:
         ctx.count("floorset:source-rejected")
+        return
+    except ValueError as e:
+        if inp["pins"]:
+            ctx.spec_fail("floorset:convert", inp, {"raised": repr(e)[:300]}, sz)
+            return
+        # no pins: nothing is produced; the model must raise the same class
+        ctx.case("floorset", ("floorset-nopins", repr(inp["polys"])), False)
+        ctx.count("floorset:no-pins(ValueError)")
+        import numpy as np
+        from tools.floorset_parser.floor_set_manager.utils.utils import strop_decomposition
+        mods_in = []
+        for i, poly in enumerate(inp["polys"]):
+            kind = 2 if inp["cons"][i][1] else 1 if inp["cons"][i][0] else 0
+            mods_in.append([kind, inp["areas"][i], plain(strop_decomposition(np.array(poly, dtype=float)))])
+        alpha = 1.0 if not inp["density"] else float(inp["density"])
+        batch.add("F floorset " + enc([mods_in, [], inp["terminals"], alpha, inp["b2b"], []]), "err:ValueError", "floorset", inp)
         return
     except ZeroDivisionError as e:
         if inp["density"] and not any(w > 0 for _, _, w in inp["b2b"] + inp["p2b"]):
@@ -1482,7 +1500,8 @@ def run(ctx: Ctx) -> None:
         "the property's quantifier is over instances with polygonal blocks (FloorSet-Prime)",
         "legalfloor cannot build a model for modules without rectangles (terminals): those netlists are not solutions "
         "of the stage",
-        "a FloorSet instance spans a non-degenerate die (some pin has x > 0, some pin has y > 0); with a density factor, "
+        "a FloorSet instance has at least one pin (without pins the converter raises ValueError, in the model too) and "
+        "spans a non-degenerate die (some pin has x > 0, some pin has y > 0); with a density factor, "
         "at least one connection has positive weight (otherwise the converter divides by zero before producing anything)",
     ]
     batch = Batch()
